@@ -49,12 +49,108 @@ def with_refs(c, *r):
     return d
 
 
+
+# ---------------------------------------------------------------------------------------------------------------------
+# call sites of the primitives that are plain function bodies (the primitives' contracts are used via replace=[...])
+# ---------------------------------------------------------------------------------------------------------------------
+AT = 'include/unifex/await_transform.hpp'
+INJ = 'include/unifex/tracing/inject_async_stack.hpp'
+SW = 'include/unifex/sync_wait.hpp'
+AT_NS = r'namespace _await_tfx \{'
+AW_T = r'class _awaitable_wrapper<Awaitable>::type final \{'
+RCVW_T = r'struct _rcvr_wrapper<Receiver>::type final : _rcvr_base \{'
+OPW_T = r'struct _op_wrapper<Op, R>::type final'
+TRY_CATCH = [(r'UNIFEX_TRY\s*\{', '{'), (r'\}\s*UNIFEX_CATCH\s*\(\.\.\.\)\s*\{', '} if (0) { vf_catch: ;')]
+
+
+def _deref_args(m):
+    """activateAsyncStackFrame(*root, *frame) / deactivateAsyncStackFrame((*frame)): a reference parameter bound to *p is the
+    pointer p (same reference -> pointer rule as for the primitives themselves)"""
+    import re as _re
+    return m.group(1) + '(' + _re.sub(r'(^|[,(]\s*)\*\s*', r'\1', m.group(2)) + ');'
+
+
+CALLS = [(r'\b(activateAsyncStackFrame|deactivateAsyncStackFrame)\(([^;]*)\);', _deref_args)]
+
+aw_ctx = dict(cls='awaitable_wrapper', members=['coro_', 'awaiter_'], pre=[
+    (r'resume_with_stack_root\(h\)\.handle\(\)', 'EV_make_resumer(this)'),
+    (r'awaiter_\.await_suspend\(resumer\)', 'EV_await_suspend(this, resumer)'),
+    (r'std::exchange\(coro_, \{\}\)\.destroy\(\);', 'EV_resumer_destroy(this, VF_EXCHANGE(coro_, 0));'),
+] + CALLS, obj_methods={'getStackRoot': 'AsyncStackFrame_getStackRoot'})
+sa_ctx = dict(cls='sender_awaitable', members=['op_'], pre=[
+    (r'get_async_stack_frame\(handle\.promise\(\)\)', 'EV_promise_frame(this)'),
+    (r'unifex::start\(op_\);', 'EV_start_awaited_op(this);'),
+] + CALLS)
+# local ScopedAsyncStackRoot of the resumer coroutine's awaiter: laid out on the window's scoped root SR
+ra_ctx = dict(cls='resumer_awaiter', members=[], raii={'ScopedAsyncStackRoot': ('VF_SR_CTOR', 'VF_SR_DTOR')}, pre=[
+    (r'get_async_stack_frame\(h\.promise\(\)\)', 'EV_promise_frame(this)'),
+    (r'root\.activateFrame\(\*frame\);', 'root.activateFrame(frame);'),
+    (r'\bh\.resume\(\);', 'EV_resume_awaiting(this, frame);'),
+], obj_methods={'ensureFrameDeactivated': 'ScopedAsyncStackRoot_ensureFrameDeactivated'}, post=[(r'&root\b', '&SR')])
+
+# _root_and_frame / _root_and_frame_ref / initial_stack_root: RAII objects whose members are laid out on window objects
+rf_ctx = dict(cls='root_and_frame', members=[], pre=[
+    (r'setParentFrame\(\*(\w+)\)', r'setParentFrame(\1)'),
+    (r'root_\.activateFrame\(frame_\);', 'root_.activateFrame(&frame_);'),
+    (r'deactivateAsyncStackFrame\(frame_\);', 'deactivateAsyncStackFrame(&frame_);'),
+], obj_methods={'setParentFrame': 'AsyncStackFrame_setParentFrame', 'setReturnAddress': 'AsyncStackFrame_setReturnAddress'},
+    post=[(r'\bframe_\b', 'RF_FRAME'), (r'\broot_\b', 'RF_ROOT')])
+rfr_ctx = dict(cls='root_and_frame_ref', members=[], pre=[
+    (r'setParentFrame\(\*(\w+)\)', r'setParentFrame(\1)'),
+    (r'root_\.activateFrame\(\*frame_\);', 'root_.activateFrame(frame_);'),
+] + CALLS, obj_methods={'setParentFrame': 'AsyncStackFrame_setParentFrame', 'ensureFrameDeactivated': 'ScopedAsyncStackRoot_ensureFrameDeactivated'},
+    post=[(r'\bframe_\b', 'RFR_FRAMEP'), (r'\broot_\b', 'RF_ROOT')])
+isr_ctx = dict(cls='initial_stack_root', members=[], pre=[
+    (r'root\.activateFrame\(frame\);', 'root.activateFrame(&frame);'),
+    (r'deactivateAsyncStackFrame\(frame\);', 'deactivateAsyncStackFrame(&frame);'),
+], obj_methods={'setReturnAddress': 'AsyncStackFrame_setReturnAddress'},
+    post=[(r'(?<![\w.>])frame\b', 'ISR_FRAME'), (r'(?<![\w.>])root\b', 'RF_ROOT')])
+RAII_RF = {'_root_and_frame': ('VF_RF_CTOR', 'VF_RF_DTOR'), '_root_and_frame_ref': ('VF_RFR_CTOR', 'VF_RFR_DTOR'),
+           'initial_stack_root': ('VF_ISR_CTOR', 'VF_ISR_DTOR')}
+rcvw_ctx = dict(cls='rcvr_wrapper', members=[], raii=RAII_RF, pre=[
+    (r'_root_and_frame rf\(get_async_stack_frame\(receiver\(\)\)\);', 'vf_rf_arg = EV_get_async_stack_frame(this); _root_and_frame rf;'),
+    (r'(?s)unifex::set_value\(std::move\(receiver\(\)\), std::forward<T>\(ts\)\.\.\.\);', 'if (EV_complete(this, SIG_value)) goto vf_catch;'),
+    (r'unifex::set_error\(std::move\(receiver\(\)\), std::current_exception\(\)\);', 'EV_complete(this, SIG_error);'),
+    (r'unifex::set_error\(std::move\(receiver\(\)\), std::forward<E>\(e\)\);', 'EV_complete(this, SIG_error);'),
+    (r'unifex::set_done\(std::move\(receiver\(\)\)\);', 'EV_complete(this, SIG_done);'),
+] + TRY_CATCH)
+opw_ctx = dict(cls='op_wrapper', members=['op_'], raii=RAII_RF, pre=[
+    (r'(?s)_root_and_frame_ref rf\{\s*this->frame_, get_async_stack_frame\(this->receiver_\)\};',
+     'vf_rfr_frame = VF_OPW_FRAME(this); vf_rfr_parent = EV_get_parent_frame(this); _root_and_frame_ref rf;'),
+    (r'unifex::start\(op_\);', 'EV_start_wrapped_op(this);'),
+])
+sw_ctx = dict(cls='', members=[], raii=RAII_RF, pre=[
+    (r'initial_stack_root stackRoot\{frameAddress, returnAddress\};', 'vf_isr_fp = frameAddress; vf_isr_ip = returnAddress; initial_stack_root stackRoot;'),
+    (r'(?s)auto operation = connect\(.*?stackRoot\.frame\}\);', 'if (EV_sw_connect(&stackRoot.frame)) return;'),
+    (r'(?<![\w.>])start\(operation\);', 'EV_sw_start();'),
+    (r'\bctx\.run\(\);', 'EV_sw_run();'),
+])
+
+
+# type-level fact, checked TEXTUALLY: the noexcept-specification of _op_wrapper's constructor
+def _norm(t):
+    import re as _re
+    return _re.sub(r'\s+', '', t)
+
+
+NX_A = _norm('std::is_nothrow_invocable_v<Fn, S, receiver_t<R>>')
+NX_B = _norm('std::is_nothrow_constructible_v<remove_cvref_t<R>, R>')
+NX_SIG = r'(?s)explicit type\(S&& s, R&& r, Fn&& fn\) noexcept\((.*?)\)\s*:\s*_op_with_receiver<'
+
+
+def _nx(pred):
+    return dict(file=INJ, kind='expr', sig=NX_SIG, within=OPW_T, ctx=dict(pre=[(r'(?s)^.*$', lambda m: '1' if pred(_norm(m.group(0))) else '0')]))
+
+
 # the chain walk of getAsyncStackTraceFromInitialFrame, native loop contract (index bound, unbounded in chain length):
 # `frame` is a loop-carried POINTER; the invariant pins it to the one-frame window WSELF (a chain member whose parent is
 # again a chain member or the end), see the template
 TRACE_LOOP = ('__CPROVER_assigns(frame, numFrames, __CPROVER_object_whole(addresses))\n'
               '__CPROVER_loop_invariant(numFrames <= maxAddresses && (frame == NULL || frame == &WSELF)'
               ' && (!(WSELF.parentFrame == &WSELF && initialFrame != NULL) || frame == &WSELF))')
+
+RF_REPLACE = ['ScopedAsyncStackRoot_ctor', 'ScopedAsyncStackRoot_activateFrame', 'deactivateAsyncStackFrame',
+              'ScopedAsyncStackRoot_ensureFrameDeactivated', 'ScopedAsyncStackRoot_dtor']
 
 SPEC = dict(
     properties=['C20'],
@@ -109,6 +205,29 @@ SPEC = dict(
         'resume_with_new_root': dict(file=CPP, sig=r'void resumeCoroutineWithNewAsyncStackRoot\(\s*coro::coroutine_handle<> h, unifex::AsyncStackFrame& frame\) noexcept',
                                      ctx=dict(raii={'ScopedAsyncStackRoot': ('VF_SCOPED_CTOR', 'VF_SCOPED_DTOR')},
                                               pre=[(r'\bh\.resume\(\)', 'EV_resume(frame)')])),
+        # ---- call sites: await_transform.hpp
+        'aw_suspend_bool': dict(file=AT, sig=r'bool await_suspend_impl\b', within=[AT_NS, AW_T], ctx=aw_ctx, must_contain=[r'awaiter_\.await_suspend\(resumer\)']),
+        'aw_suspend_other': dict(file=AT, sig=r'suspend_result_t<Promise> await_suspend_impl\b', within=[AT_NS, AW_T], ctx=aw_ctx, must_contain=[r'awaiter_\.await_suspend\(resumer\)']),
+        'sender_awaitable_suspend': dict(file=AT, sig=r'void await_suspend\(coro::coroutine_handle<Promise> handle\) noexcept', within=AT_NS, ctx=sa_ctx),
+        'resumer_awaiter_suspend': dict(file=AT, sig=r'void await_suspend\(coro::coroutine_handle<>\) noexcept', within=AT_NS, ctx=ra_ctx),
+        # ---- call sites: inject_async_stack.hpp
+        'rf_ctor': dict(file=INJ, sig=r'explicit _root_and_frame\(AsyncStackFrame\* frame\) noexcept', ctx=rf_ctx),
+        'rf_dtor': dict(file=INJ, sig=r'~_root_and_frame\(\)', ctx=rf_ctx),
+        'rfr_frame_init': dict(file=INJ, kind='expr', sig=r':\s*frame_\((&frame)\)', ctx=dict(pre=[(r'^&frame$', 'frame')])),
+        'rfr_ctor': dict(file=INJ, sig=r'explicit _root_and_frame_ref\b', ctx=rfr_ctx),
+        'rfr_dtor': dict(file=INJ, sig=r'~_root_and_frame_ref\(\)', ctx=rfr_ctx),
+        'rcvw_set_value': dict(file=INJ, sig=r'void set_value\(T&&\.\.\. ts\) noexcept', within=RCVW_T, ctx=rcvw_ctx),
+        'rcvw_set_error': dict(file=INJ, sig=r'void set_error\(E&& e\) noexcept', within=RCVW_T, ctx=rcvw_ctx),
+        'rcvw_set_done': dict(file=INJ, sig=r'void set_done\(\) noexcept', within=RCVW_T, ctx=rcvw_ctx),
+        'opw_start': dict(file=INJ, sig=r'void start\(\) & noexcept', within=OPW_T, ctx=opw_ctx),
+        'nx_has_nothrow_invocable': _nx(lambda t: NX_A in t),
+        'nx_has_nothrow_constructible': _nx(lambda t: NX_B in t),
+        'nx_is_conjunction': _nx(lambda t: t in (NX_A + '&&' + NX_B, NX_B + '&&' + NX_A)),
+        # ---- call sites: sync_wait.hpp
+        'isr_root_init': dict(file=SW, kind='expr', sig=r':\s*root\{(frameAddress, returnAddress)\}'),
+        'isr_ctor': dict(file=SW, sig=r'explicit initial_stack_root\b', ctx=isr_ctx),
+        'isr_dtor': dict(file=SW, sig=r'~initial_stack_root\(\)', ctx=isr_ctx),
+        'sw_scope': dict(file=SW, sig=r'manual_event_loop ctx;\s*', within=r'namespace _sync_wait \{', ctx=sw_ctx, must_contain=[r'initial_stack_root stackRoot']),
     },
     closed_world=[
         # the link fields are private; their friends are exactly the functions below (C++ access control closes the rest of the tree)
@@ -176,10 +295,29 @@ SPEC = dict(
                       'popAsyncStackFrameCallee', 'popAsyncStackFrameFromCaller', 'deactivateAsyncStackFrame', 'ScopedAsyncStackRoot_dtor']),
         dict(name='lemma_unbalanced_is_caught', harness='lemma_unbalanced_is_caught', mode='lemma'),
         dict(name='lemma_async_stack_init', harness='lemma_async_stack_init', mode='lemma'),
+        # ---- call sites (contracts of the primitives used through replace)
+        dict(name='await_suspend_impl_bool', harness='h_aw_suspend_bool', enforce='awaitable_wrapper_await_suspend_impl_bool',
+             replace=['activateAsyncStackFrame', 'deactivateAsyncStackFrame']),
+        dict(name='await_suspend_impl_void_or_handle', harness='h_aw_suspend_other', enforce='awaitable_wrapper_await_suspend_impl_other',
+             replace=['activateAsyncStackFrame', 'deactivateAsyncStackFrame']),
+        dict(name='sender_awaitable_await_suspend', harness='h_sender_awaitable_suspend', enforce='sender_awaitable_await_suspend',
+             replace=['deactivateAsyncStackFrame']),
+        dict(name='resumer_awaiter_await_suspend', harness='h_resumer_awaiter_suspend', enforce='resumer_awaiter_await_suspend',
+             replace=['ScopedAsyncStackRoot_ctor', 'ScopedAsyncStackRoot_activateFrame', 'ScopedAsyncStackRoot_ensureFrameDeactivated', 'ScopedAsyncStackRoot_dtor']),
+        dict(name='rcvr_wrapper_set_value', harness='h_rcvw_set_value', enforce='rcvr_wrapper_set_value', replace=RF_REPLACE),
+        dict(name='rcvr_wrapper_set_error', harness='h_rcvw_set_error', enforce='rcvr_wrapper_set_error', replace=RF_REPLACE),
+        dict(name='rcvr_wrapper_set_done', harness='h_rcvw_set_done', enforce='rcvr_wrapper_set_done', replace=RF_REPLACE),
+        dict(name='op_wrapper_start', harness='h_opw_start', enforce='op_wrapper_start', replace=RF_REPLACE),
+        dict(name='sync_wait_impl_scope', harness='h_sw_scope', enforce='sync_wait_impl_scope', replace=RF_REPLACE),
+        dict(name='lemma_op_wrapper_noexcept', harness='lemma_op_wrapper_noexcept', mode='lemma'),
     ],
     assumptions=[
         'NOT REACHED: the configuration-differential half of C20 (same observable behaviour under C++17/20 x NDEBUG/debug x continuation visitation on/off): needs several builds to be run and compared, a different technique',
-        'NOT REACHED: that sync_wait / task / connect_awaitable / await_transform / spawn call the primitives in matched pairs (templates and coroutines); what is proved is that matched pairs restore the bookkeeping and that the code\'s own asserts hold at every use under the stated call-site preconditions',
+        'call sites that are plain function bodies ARE reached, with the primitives represented by their contracts: await_transform.hpp _awaitable_wrapper::await_suspend_impl (both overloads), _awaitable::await_suspend, the resumer coroutine\'s awaiter::await_suspend; inject_async_stack.hpp _rcvr_wrapper::set_value/set_error/set_done, _op_wrapper::start (with _root_and_frame / _root_and_frame_ref); sync_wait.hpp initial_stack_root and the scope in _impl that owns it.  NOT REACHED: task.hpp / connect_awaitable.hpp / at_coroutine_exit.hpp / stop_if_requested.hpp (coroutine bodies), _rec::complete / _rec::set_done in await_transform.hpp, _rcvr_wrapper::set_next (conditionally noexcept: unwinding through the RAII object)',
+        'call-site stubs: the wrapped awaiter\'s await_suspend, the downstream receiver\'s completion, the wrapped operation\'s start and sync_wait\'s connect/start/run use the async stack in a balanced way on the current root (they return with the frame that was active still active) -- assumption; they may resume the coroutine elsewhere (its frame re-activated on another root) or destroy operation / promise / awaiter: dead-object snapshot, writes afterwards are violations, reads of a dead object are not detected',
+        'local RAII objects (_root_and_frame, _root_and_frame_ref, initial_stack_root, the ScopedAsyncStackRoot in the resumer awaiter) are laid out on the window objects (frame_ -> F1 resp. F0, root_ -> SR); member construction / destruction order is written out in the template (VF_*_CTOR / VF_*_DTOR), the constructor / destructor BODIES are extracted',
+        '_op_wrapper::start with an operation that is still pending when start() returns: the frame stays attached (known finding C20-op-wrapper-frame-left-attached, unit ScopedAsyncStackRoot_ensureFrameDeactivated_live_frame); unit op_wrapper_start proves root restoration, the activation order and that a possibly-dead operation is not written',
+        'TEXTUAL check of a type-level fact: lemma_op_wrapper_noexcept compares the whitespace-normalised noexcept-specification of _op_wrapper\'s constructor with the conjunction is_nothrow_invocable_v<Fn, S, receiver_t<R>> && is_nothrow_constructible_v<remove_cvref_t<R>, R> ("the wrapper\'s constructor is noexcept only if the wrapped connect is"); the traits are not evaluated and the rest of the noexcept chain (make_op_wrapper, the connect CPO in sender_concepts.hpp) is not checked',
         'call-site preconditions (caller obligations of template code): the callee frame handed to pushAsyncStackFrameCallerCallee is a different, not yet attached frame (stackRoot == nullptr); the parent of a frame handed to popAsyncStackFrameCallee is null or a live, currently detached frame; a frame handed to activate is detached and the root has no top frame',
         'thread-locality: the current-root holder is thread_local and a thread writes topFrame only of its own current root (checked as the guarantee at every atomic store); other threads / profilers / debuggers only read (header comment on topFrame): vf_interfere is empty',
         'the link fields are private; the closed-world scan covers the three files that contain every friend (async_stack.hpp, async_stack-inl.hpp, source/async_stack.cpp)',
@@ -194,5 +332,6 @@ SPEC = dict(
            'default arguments of the ScopedAsyncStackRoot constructor (__builtin_frame_address / __builtin_return_address) -> nondeterministic values',
            'namespace qualifiers unifex:: / detail::', 'coroutine_handle::resume() -> event stub EV_resume',
            'local ScopedAsyncStackRoot object: constructor / destructor made explicit (VF_SCOPED_CTOR / VF_SCOPED_DTOR at scope exit)',
+           'call sites: coroutine handles -> int ids; resume_with_stack_root(h).handle(), awaiter_.await_suspend(resumer), std::exchange(coro_, {}).destroy(), h.resume(), unifex::start(op_), unifex::set_value/set_error/set_done(receiver()), get_async_stack_frame(...), connect/start/ctx.run() in sync_wait -> event stubs; a reference bound to *p at a call of activate/deactivate -> p (callable pre rule); constructor arguments of local RAII objects passed through template variables; UNIFEX_TRY / UNIFEX_CATCH -> goto vf_catch; if constexpr (WithAsyncStackSupport) -> both branches',
            'getDetachedRootAsyncStackFrame / makeDetachedRootFrame / compiler_must_not_elide / pthread key set-up: not extracted (no link field is touched)'],
 )
